@@ -21,7 +21,7 @@ META = {
                 'float32 rounding of raster values copied into float32 scan lines / outputs (allocation is compared with 1e-4 relative tolerance)'],
     'assumptions': ['coordinates concrete (several grids); cell values symbolic'],
     'replay_samples': {'quick': 4, 'thorough': 12},   # every replayed call re-JITs the proximity closure in the real build (~5 s)
-    'budget_s': {'quick': 200, 'thorough': 1800},
+    'budget_s': {'quick': 300, 'thorough': 1800},
 }
 
 GRIDS = {
